@@ -21,6 +21,9 @@ FLOORS = {"quick": {"decisions": 30000, "decisions_multi_level": 8000, "higher_a
                        "lower_served_after_higher_emptied": 40000}}
 KEYS = tuple(FLOORS["quick"].keys()) + ("higher_arrived_between_pick_and_start", "back_to_back", "idle_then_arrival", "arrival_at_tx_end",
                                          "arrival_at_tx_end_after_departure")
+# floors for the situations added with the later rounds of seeded changes (evidence that they were really exercised)
+FLOORS["quick"].update({'higher_arrived_between_pick_and_start': 30, 'echoed_arrivals_inside_next_hop_put': 4000})
+FLOORS["thorough"].update({'higher_arrived_between_pick_and_start': 150, 'echoed_arrivals_inside_next_hop_put': 20000})
 
 
 def plan(tier):
@@ -110,6 +113,7 @@ def one_case(ctx, case):
     import collections
     stats = collections.Counter({k: 0 for k in KEYS})
     run = vs.Run(case, counters=False).go()
+    vs.count_features(ctx, run)
     if not run.viol:
         c12.time_rules(run, stats, run.bad)
     if not run.viol:
